@@ -1,4 +1,5 @@
 """C11 — placeholder values reflect the bar state at draw time (dispatch-table agreement)."""
+import json
 import os
 import re
 
@@ -208,6 +209,7 @@ def run(ctx, crate):
     rule_tick_str(ctx, crate)
     rule_tracker_lifecycle(ctx, crate)
     rule_arm_buffer_fresh(ctx, crate)
+    rule_marker_out_of_band(ctx, crate)
     from .c05 import rule_paint_reads_live_state
     rule_paint_reads_live_state(ctx, crate)
 
@@ -537,3 +539,197 @@ def rule_arm_buffer_fresh(ctx, crate, rule="R-ARM-BUFFER-FRESH"):
                   "text left in the scratch buffer by %s can reach the placeholder write at line %s without a clear: the placeholder renders on top of stale text" % (
                       sorted({K.meth(s.path) for s in dirty_sources})[:4], stale[0].line if stale else "?"), cfg)
     ctx.floor(rule, n, 1, cfg, "scratch buffers written by placeholder arms")
+
+
+SEARCHES = (r"(std|core|alloc)::str::<impl str>::(replace|replacen|find|rfind|split|rsplit|split_once|rsplit_once|contains|matches|match_indices|split_terminator|splitn|trim_matches|strip_prefix|strip_suffix)",)
+
+
+def _body_mentions_char(body, ch):
+    """Does a body (a closure) mention the char constant `ch`?"""
+    for bb in range(body.n):
+        for st in body.stmts(bb):
+            if '"char": true' in json.dumps(st) and json.dumps(ch) in json.dumps(st):
+                return True
+        t = body.term(bb)
+        if t and '"char": true' in json.dumps(t) and json.dumps(ch) in json.dumps(t):
+            return True
+    return False
+
+
+def _closure_defs(b, op):
+    """closure bodies an operand may denote (closure aggregates in its slice)"""
+    l = operand_local(op)
+    out = set()
+    if l is None:
+        return out
+    for i, j, s in b.assigns():
+        if s["lhs"]["l"] == l and not s["lhs"]["p"] and s["rv"]["k"] == "agg" and s["rv"].get("ak") == "closure":
+            out.add(s["rv"].get("def"))
+    return out
+
+
+def rule_marker_out_of_band(ctx, crate, rule="R-MARKER-OUT-OF-BAND"):
+    """The wide element ({wide_bar}, {wide_msg}) is spliced into a line by *searching* the finished line for a marker
+    character that `format_state` pushed where the element goes. The marker travels in-band: any other text of the line
+    that happens to contain the same character is taken for the marker (the bar is spliced into the message, the line
+    overflows the terminal). So whenever the functions behind `format_state` search the line for a character constant that
+    `format_state` itself pushes, every other text that enters the line must have that character removed first:
+      (a) each append of the per-placeholder buffer to the line is preceded, on every path from the buffer's `clear()`, by a
+          filter for the marker (`String::retain`, `str::replace`, `Iterator::filter` with a closure naming it);
+      (b) between that filter and the append nothing writes the buffer but the marker push itself;
+      (c) template literals are filtered where they are parsed (or where they are appended).
+    With a positional design (no search for a pushed constant) the rule has nothing to check."""
+    cfg = crate.config
+    F = K.find_one(ctx, crate, rule, r"style::ProgressStyle::format_state")
+    if not F:
+        return
+    pushed = {}
+    for c in F.calls(r"std::string::String::push"):
+        if len(c.args) > 1 and c.args[1].get("k") == "const" and c.args[1].get("char"):
+            pushed.setdefault(c.args[1].get("v"), []).append(c)
+    # functions behind format_state (crate-local, depth 3)
+    seen, work = {F.name}, [(F, 0)]
+    searched = {}
+    while work:
+        b, dep = work.pop()
+        for c in b.calls(*SEARCHES):
+            if len(c.args) > 1 and c.args[1].get("k") == "const" and c.args[1].get("char") and c.args[1].get("v") in pushed:
+                searched.setdefault(c.args[1]["v"], []).append(c)
+        if dep < 3:
+            for c in b.calls():
+                if c.callee.get("local"):
+                    for tn in crate.resolve_targets(c):
+                        h = crate.bodies.get(tn)
+                        if h is not None and h.name not in seen:
+                            seen.add(h.name)
+                            work.append((h, dep + 1))
+    ctx.extra.setdefault("line_markers", {})[cfg] = sorted(json.dumps(m) for m in searched)
+    if not searched:
+        ctx.check(True, rule, "no-in-band-marker", F.name, "%s:%d" % (F.file, 0), "no character constant pushed by format_state is searched for in the line", "", cfg)
+        return
+    lines = F.calls(r"style::ProgressStyle::push_line")
+    if not lines:
+        ctx.lost(rule, cfg, "format_state does not hand its line to push_line any more")
+        return
+
+    def origin(op):
+        l = operand_local(op)
+        if l is None:
+            return set()
+        o = {tl for tl, tp in F.ref_origins().get(l, ())}
+        return o or {l}
+    cur_ls = set()
+    for c in lines:
+        for a in c.args[1:]:
+            if isinstance(a, dict) and a.get("k") in ("move", "copy") and a["place"].get("ty", "").replace(" ", "") == "&mutstd::string::String":
+                cur_ls |= origin(a)
+                break
+    for m, pcs in sorted(pushed.items()):
+        if m not in searched:
+            continue
+        buf_ls = set()
+        for c in pcs:
+            buf_ls |= origin(c.args[0])
+        if len(buf_ls) != 1 or len(cur_ls) < 1 or (buf_ls & cur_ls):
+            ctx.lost(rule, cfg, "cannot tell the placeholder buffer (%s) from the line (%s)" % (sorted(buf_ls), sorted(cur_ls)))
+            continue
+        buf_l = next(iter(buf_ls))
+        clears = [c for c in F.calls(r"std::string::String::clear") if origin(c.args[0]) == {buf_l}]
+        sanit = []
+        for c in F.calls(r"std::string::String::retain", r"std::iter::Iterator::filter", *SEARCHES):
+            if K.meth(c.path) in ("retain", "filter"):
+                ok = any(crate.bodies.get(d) is not None and _body_mentions_char(crate.bodies[d], m) for a in c.args[1:] for d in _closure_defs(F, a))
+            else:
+                ok = K.meth(c.path) in ("replace", "replacen") and len(c.args) > 1 and c.args[1].get("k") == "const" and c.args[1].get("v") == m
+            if ok and buf_l in F.slice_args(c, [0]).locals:
+                sanit.append(c)
+        s_bbs = {c.bb for c in sanit}
+        writers, appends, lit_appends = [], [], []
+        next_bbs = {c.bb for c in F.calls(r"std::iter::Iterator::next")}
+        in_iter = F.reach([x for c in clears for x in F.succ(c.bb)], avoid=next_bbs)
+
+        def wraps_buf(l, depth=0):
+            """local l is (or is an aggregate holding a `&mut` to) the buffer"""
+            if l == buf_l:
+                return True
+            if depth > 3:
+                return False
+            for i_, j_, s_ in F.assigns():
+                if s_["lhs"]["l"] == l and not s_["lhs"]["p"] and s_["rv"]["k"] == "agg":
+                    for o in s_["rv"]["ops"]:
+                        if isinstance(o, dict) and o.get("k") in ("move", "copy") and o["place"].get("ty", "").startswith("&mut") and any(wraps_buf(x, depth + 1) for x in origin(o)):
+                            return True
+            return False
+        for c in F.calls():
+            if c in sanit or c in clears or c in pcs or c.matches(r"style::ProgressStyle::push_line"):
+                continue
+            muts = [a for a in c.args if isinstance(a, dict) and a.get("k") in ("move", "copy") and a["place"].get("ty", "").startswith("&mut")]
+            if not muts:
+                continue
+            tgt = set()
+            for a in muts:
+                tgt |= origin(a)
+            if tgt and tgt <= cur_ls:
+                # appended within the iteration that cleared the buffer = placeholder text; anything else (template literals) = other text
+                (appends if c.bb in in_iter else lit_appends).append(c)
+            elif any(wraps_buf(x) for x in tgt):
+                writers.append(c)
+        if not appends or not clears:
+            ctx.lost(rule, cfg, "no append of the placeholder buffer to the line / no clear() of the buffer found in format_state")
+            continue
+        cl_bbs = {c.bb for c in clears}
+        for k, a in enumerate(appends):
+            ok = bool(s_bbs) and not (F.reach([x for cb in cl_bbs for x in F.succ(cb)], avoid=s_bbs | next_bbs) & {a.bb})
+            ctx.check(ok, rule, "buffer-filtered:%s#%d" % (K.meth(a.path), k), F.name, a.loc(),
+                      "the placeholder text is filtered for the marker %r before it is appended to the line" % m,
+                      "the line is searched for the marker %r (%s), but placeholder text (message, prefix, custom keys) is appended to it unfiltered: a message "
+                      "containing that character gets the wide element spliced into it and the line overflows the terminal" % (m, ", ".join(sorted({K.meth(x.path) + "@" + x.body.name.split("::")[-1] for x in searched[m]}))), cfg)
+            if ok:
+                late = [w for w in writers if any(w.bb in F.reach([F.term(s).get("t")], avoid=cl_bbs) for s in s_bbs if F.term(s).get("t") is not None)
+                        and a.bb in F.reach([w.target] if w.target is not None else [], avoid=cl_bbs)]
+                ctx.check(not late, rule, "nothing-after-filter:%s#%d" % (K.meth(a.path), k), F.name, a.loc(),
+                          "between the filter and the append only the marker itself is written to the buffer",
+                          "the buffer is written again after it was filtered for the marker (%s)" % ", ".join("%s L%d" % (w.path, w.line) for w in late[:3]), cfg)
+        # (c) literal text
+        for k, a in enumerate(lit_appends):
+            ok = any(c.matches(r"std::iter::Iterator::filter", *SEARCHES) and K.meth(c.path) in ("filter", "replace", "replacen")
+                     and (K.meth(c.path) == "filter" and any(crate.bodies.get(d) is not None and _body_mentions_char(crate.bodies[d], m) for x in c.args[1:] for d in _closure_defs(F, x))
+                          or K.meth(c.path) != "filter" and len(c.args) > 1 and c.args[1].get("v") == m)
+                     for c in F.slice_args(a, through_calls=False).calls)
+            if not ok:
+                # filtered where the template is parsed: the loop that builds the literal parts consumes a filtered iterator
+                for P in K.lib_bodies(crate):
+                    if P.kind == "Closure" or not any(s["rv"]["k"] == "agg" and s["rv"].get("adt") == "style::TemplatePart" and s["rv"].get("variant") == "Literal" for i, j, s in P.assigns()):
+                        continue
+                    for nx in P.calls(r"std::iter::Iterator::next"):
+                        sl = P.slice_args(nx, [0])
+                        for c in sl.calls:
+                            if c.matches(r"std::iter::Iterator::filter") and any(crate.bodies.get(d) is not None and _body_mentions_char(crate.bodies[d], m) for x in c.args[1:] for d in _closure_defs(P, x)):
+                                ok = True
+                            if c.matches(*SEARCHES) and K.meth(c.path) in ("replace", "replacen") and len(c.args) > 1 and c.args[1].get("v") == m:
+                                ok = True
+                    # or the loop skips the character itself: `if c == MARK { continue; }` - on the equal edge nothing happens before the next item is read
+                    nxb = {k.bb for k in P.calls(r"std::iter::Iterator::next")}
+                    for i_, j_, s_ in P.assigns():
+                        rv = s_["rv"]
+                        if rv["k"] != "bin" or rv["op"] not in ("Eq", "Ne") or s_["lhs"]["p"]:
+                            continue
+                        sides = [rv["a"], rv["b"]]
+                        cs_ = [x for x in sides if x.get("k") == "const" and x.get("char") and x.get("v") == m]
+                        vs_ = [x for x in sides if x.get("k") != "const"]
+                        if len(cs_) != 1 or len(vs_) != 1 or not any(k.bb in nxb for k in P.slice(vs_[0], at=i_).calls):
+                            continue
+                        for sb, t in P.switches():
+                            if operand_local(t["op"]) != s_["lhs"]["l"] or t["op"]["place"]["p"]:
+                                continue
+                            zero = [tb for v, tb in t["targets"] if v == 0]
+                            if not zero or zero[0] == t["otherwise"]:
+                                continue
+                            eq_t = t["otherwise"] if rv["op"] == "Eq" else zero[0]
+                            region = P.reach([eq_t], avoid=nxb)
+                            if nxb and not any(P.term(x) and P.term(x)["k"] == "call" for x in region) and not any(P.term(x) and P.term(x)["k"] == "return" for x in region):
+                                ok = True
+            ctx.check(ok, rule, "literal-filtered#%d" % k, F.name, a.loc(),
+                      "template literals are free of the marker %r (filtered where the template is parsed)" % m,
+                      "template text is appended to the line unfiltered although the line is searched for the marker %r" % m, cfg)
+        ctx.extra.setdefault("marker_sites", {})[cfg] = {"appends": len(appends), "literal_appends": len(lit_appends), "filters": len(sanit), "buffer_writers": len(writers)}
